@@ -155,6 +155,7 @@ def reader_sites(fn):
         if isinstance(n, ast.Return) and n.value is not None:
             raise Unsupported("return with a value in generator %s" % _where(fn, n))
     accounted = set()     # Break/Return/Continue nodes that are the non-match action of a guard
+    guard_tests = []      # the test expressions recognised as selector guards
     sites = []
     for y in [n for n in ast.walk(node) if isinstance(n, ast.Yield)]:
         st, fld, idx = parents[id(y)]
@@ -170,6 +171,7 @@ def reader_sites(fn):
             x = _positive_guard(blk_owner.test)
             if x is not None:
                 guard_node = blk_owner
+                guard_tests.append(blk_owner.test)
                 guard = "GSelOrMatch"
                 same = (x == yname) and not any(_binds(s, {x, yname}) for s in block[:blk_idx])
                 kind = _exit_kind(blk_owner.orelse, fn)
@@ -184,6 +186,7 @@ def reader_sites(fn):
                     x = _negative_guard(s.test)
                     if x is not None:
                         guard_node = s
+                        guard_tests.append(s.test)
                         guard = "GSelOrMatch"
                         same = (x == yname) and not any(_binds(t, {x, yname}) for t in block[j + 1:blk_idx])
                         kind = _exit_kind(s.body, fn)
@@ -228,6 +231,11 @@ def reader_sites(fn):
             if cls == "Record" and branch == "orelse":
                 kind = "plain"
         sites.append(dict(kind=kind, guard=guard, same=bool(same), stops=bool(stops), line=y.lineno))
+    # the selector may be consulted by the guards only (nothing else in the loop may depend on it)
+    in_guards = {id(n) for t in guard_tests for n in ast.walk(t)}
+    for n in ast.walk(node):
+        if _is_self_selector(n) and id(n) not in in_guards:
+            raise Unsupported("self.selector is used outside a yield guard in %s" % _where(fn, n))
     for n in ast.walk(node):
         if isinstance(n, (ast.Break, ast.Return)) and id(n) not in accounted:
             raise Unsupported("`%s` in the reader loop %s" % (type(n).__name__.lower(), _where(fn, n)))
